@@ -726,3 +726,49 @@ Proof.
     split; [|exact Hin]. unfold force, load_item. simpl. rewrite Hr.
     rewrite (validate_existing k its t NotLoaded b Hinv Hin Hs). reflexivity.
 Qed.
+
+(** * A key in plain form is read under exactly its names *)
+
+Lemma trailing_dirish_snoc (l : str) x :
+  trailing_dirish (l ++ [x]) =
+  (x =? SEP) || ((x =? DOT) && match rev l with c2 :: _ => c2 =? SEP | [] => false end).
+Proof. unfold trailing_dirish. rewrite rev_app_distr. reflexivity. Qed.
+
+Lemma trailing_dirish_app_name (pre n : str) : name_ok n = true -> trailing_dirish (pre ++ n) = false.
+Proof.
+  intros H. apply name_ok_spec in H. destruct H as [H1 [H2 [H3 H4]]].
+  destruct (exists_last H1) as [n' [x E]]. subst n.
+  assert (Hx : x <> SEP). { intros X. apply H2. apply in_or_app. right. left. exact X. }
+  rewrite app_assoc, trailing_dirish_snoc.
+  apply N.eqb_neq in Hx. rewrite Hx. simpl orb.
+  destruct (x =? DOT) eqn:Ed; [|reflexivity]. simpl andb. apply N.eqb_eq in Ed. subst x.
+  rewrite rev_app_distr. destruct (rev n') as [|c2 r] eqn:Er.
+  - assert (n' = []) by (rewrite <- (rev_involutive n'), Er; reflexivity). subst n'. simpl in H3. congruence.
+  - simpl. apply N.eqb_neq. intros X. subst c2. apply H2. apply in_or_app. left.
+    apply in_rev. rewrite Er. left. reflexivity.
+Qed.
+
+Lemma join_last_name (ns : list str) : ns <> [] -> exists pre n, join ns = pre ++ n /\ In n ns.
+Proof.
+  intros Hne. destruct (exists_last Hne) as [r [n E]]. subst ns. destruct r as [|m r'].
+  - exists [], n. split; [reflexivity | left; reflexivity].
+  - rewrite join_snoc by discriminate. exists (join (m :: r') ++ [SEP]), n. split.
+    + rewrite <- app_assoc. reflexivity.
+    + apply in_or_app. right. left. reflexivity.
+Qed.
+
+(** a key in plain form is read under exactly its names *)
+Lemma os_read_plain d t : key_ok t -> os_read d t = disk_read d (names (components t)).
+Proof.
+  intros [K1 [K2 [K3 K4]]]. pose proof (components_plain t K3) as Hpl.
+  pose proof (components_nonempty t K1) as Hne.
+  assert (Et : t = join (names (components t))).
+  { rewrite <- K4 at 1. rewrite <- (plain_names _ Hpl) at 1. apply rebuild_normals. apply plain_names_ok. exact Hpl. }
+  unfold os_read. rewrite K3.
+  assert (Hn : names (components t) <> []) by (destruct (components t); [congruence | discriminate]).
+  destruct (join_last_name _ Hn) as [pre [n [E Hin]]].
+  assert (X : trailing_dirish t = false).
+  { rewrite Et, E. apply trailing_dirish_app_name.
+    pose proof (plain_names_ok _ Hpl) as Hok. rewrite Forall_forall in Hok. apply Hok. exact Hin. }
+  rewrite X. reflexivity.
+Qed.
